@@ -544,9 +544,10 @@ impl<'a> FmtVisitor<'a> {
             format_header(&self.get_context(), "enum ", ident, vis, self.block_indent);
         self.push_str(&enum_header);
 
-        let enum_snippet = self.snippet(span);
-        let brace_pos = enum_snippet.find_uncommented("{").unwrap();
-        let body_start = span.lo() + BytePos(brace_pos as u32 + 1);
+        // Start at the end of the generics: they may contain braces (`const N: usize = { 3 }`).
+        let body_start = self
+            .snippet_provider
+            .span_after(span.with_lo(generics.where_clause.span.hi()), "{");
         let generics_str = format_generics(
             &self.get_context(),
             generics,
